@@ -47,6 +47,8 @@ struct C05 : Scenario {
         else if (kind == 1) { c.gap = -1; c.currents = {r.loguniform(0.05e-3, 0.4e-3)}; }
         else if (kind == 2) { c.gap = 0.03; c.useCSR = false; c.wallcond = 5e7; c.currents = {r.loguniform(1e-3, 1e-2)}; }
         else { c.gap = 0.03; c.useCSR = false; c.collimator = 0.005; c.currents = {r.loguniform(0.5e-3, 5e-3)}; }
+        if (r.chance(0.15)) c.fs = std::round(r.uniform(3e4, 6e4));
+        if (r.chance(0.1)) c.steps_per_rev = (double)c.steps * derive(c).fs / derive(c).f_rev;
         Derived d0 = derive(c);
         double Td = many ? r.uniform(3, 4) : r.uniform(7, 11);                 // damping time in synchrotron periods
         c.tdamp = Td / d0.fs;
